@@ -80,7 +80,9 @@ pub fn build(base: &Path, spec: &TreeSpec) -> Result<PathBuf, String> {
     let mut every: Vec<PathBuf> = vec![];
     collect(base, &mut every);
     every.sort_by(|a, b| b.components().count().cmp(&a.components().count()).then(a.cmp(b)));
-    const ODD: [i64; 6] = [-86_400, 0, 1, 2_147_483_648, 4_102_444_800, -2_208_988_800];
+    // (before 1970, the epoch, beyond 2038 and 2100, and calendar corners: day 366 of leap years, leap
+    // days, year ends, a second before midnight)
+    const ODD: [i64; 14] = [-86_400, 0, 1, 2_147_483_648, 4_102_444_800, -2_208_988_800, 1_609_372_800, 1_735_646_400, 1_709_208_000, 951_825_600, 1_609_459_199, 1_672_531_199, 1_483_142_400, 4_107_542_400];
     for (i, p) in every.iter().enumerate() {
         // mode 7: the other way round (a file is newer than what sorts behind it, e.g. its .gz sibling)
         let t = if spec.mtime_mode == 7 {
